@@ -15,6 +15,8 @@ Line protocol for the Python dispatch model.
   gen  <kind: ctor|function|subroutine> <params> [<result build unit> <name=build unit;...>]
   call <src> <params> <vals> <kw>
   disp <src> <params '|' params ...> <vals> <kw>
+  sgen  <fields>                    generated struct constructor: format and keyword list
+  scall <fields> <vals> <kw>        ... called
 
   obj := a:<val> | s:<vals>
   getlist <accepted tags '.'-joined> <obj>            get_from_object_<T>_list
@@ -128,6 +130,16 @@ def handleGen : List String → String
 def handleCall : List String → String
   | [src, params, vals, kw] =>
     encOutcome (wrapper (decSrc src) (decParams params) (decVals vals) (decKw kw))
+  | _ => "bad-op"
+
+def handleSGen : List String → String
+  | [fields] =>
+    let fs := decParams fields
+    "fmt=" ++ encNats "." (fmtText (structFmt fs)) ++ " kw=" ++ encNats "," (fs.map (·.name))
+  | _ => "bad-op"
+
+def handleSCall : List String → String
+  | [fields, vals, kw] => encOutcome (structCtor (decParams fields) (decVals vals) (decKw kw))
   | _ => "bad-op"
 
 def handleDisp : List String → String
